@@ -59,9 +59,12 @@ def isConverged (c : Config α) (defInit d : α) : Bool :=
 def isDiverged (c : Config α) (defInit d : α) : Bool :=
   decide (c.divAbs < d) || decide (c.divRel * defInit < d)
 
-/-- `_set_initial_defect`: `d` is the computed norm, `fin` whether it is finite -/
-def setInitialDefect (c : Config α) (fin : Bool) (d : α) : Status × State α :=
-  let s : State α := { defInit := d, defCur := d, defPrev := d, numIter := 0, numStag := 0, curFin := fin }
+/-- `_set_initial_defect`: `d` is the computed norm, `fin` whether it is finite.  The solver object is persistent:
+    `prev` is the convergence-control state the previous `apply()`/`correct()` left behind; the function assigns
+    `_def_init = _def_cur = _def_prev`, `_num_iter = 0`, `_num_stag_iter = 0` (and nothing else) -/
+def setInitialDefect (c : Config α) (prev : State α) (fin : Bool) (d : α) : Status × State α :=
+  let s : State α :=
+    { prev with defInit := d, defCur := d, defPrev := d, numIter := 0, numStag := 0, curFin := fin }
   if !fin then (.aborted, s)
   else if d < c.tolAbsLow then (.success, s)
   else if d ≤ c.eps2 then (.success, s)
@@ -121,10 +124,11 @@ def feed (c : Config α) (upd : Bool) :
       (r.1 :: rest.1, rest.2)
 
 /-- a complete control run: initial defect, then `feed` -/
-def runControl (c : Config α) (upd : Bool) : List (Bool × α) → List Status × Option (State α × List α)
+def runControl (c : Config α) (upd : Bool) (prev : State α) :
+    List (Bool × α) → List Status × Option (State α × List α)
   | [] => ([], none)
   | (fin, d) :: ds =>
-    let r := setInitialDefect c fin d
+    let r := setInitialDefect c prev fin d
     let rest := feed c upd r.1 r.2 [r.2.defCur] ds
     (r.1 :: rest.1, some rest.2)
 
